@@ -12,6 +12,8 @@ import (
 	"fmt"
 	"math/rand"
 	"net"
+	"runtime"
+	"strings"
 	"sync"
 	"sync/atomic"
 
@@ -21,12 +23,17 @@ import (
 )
 
 type Case struct {
-	Writers int   `json:"writers"`
-	Readers int   `json:"readers"`
-	Ops     int   `json:"ops"` // per writer
-	Toggler bool  `json:"toggler"`
-	NoClock bool  `json:"no_clock,omitempty"` // race runs: no logical clock (fewer happens-before edges)
-	Seed    int64 `json:"seed"`
+	Writers int  `json:"writers"`
+	Readers int  `json:"readers"`
+	Ops     int  `json:"ops"` // per writer
+	Toggler bool `json:"toggler"`
+	NoClock bool `json:"no_clock,omitempty"` // race runs: no logical clock (fewer happens-before edges)
+	// Switch: a round aimed at the list-to-map switch: the list is filled to exactly 256 entries
+	// first; then one writer performs the 257th Add while the other writers remove ranges they
+	// added before and readers probe. Unique: the switching Add uses a prefix length nothing else has.
+	Switch bool  `json:"switch,omitempty"`
+	Unique bool  `json:"unique,omitempty"`
+	Seed   int64 `json:"seed"`
 }
 
 func u2ip(u uint32) net.IP {
@@ -71,7 +78,7 @@ type suspicious struct {
 
 type stats struct {
 	probes, probesOverlapWrite, probesDuringMigration, togglerIntervals, writerOps, selfChecks, trials, crossed int64
-	neverTrueExcused                                                                                            int64
+	neverTrueExcused, switchRounds                                                                              int64
 }
 
 const nStable = 32
@@ -82,7 +89,147 @@ func stableAddr(r *rand.Rand) uint32 {
 }
 func neverAddr(r *rand.Rand) uint32 { return 30<<24 | uint32(r.Intn(1<<24)) }
 
+// runSwitch: see Case.Switch.
+func runSwitch(cs Case, st *stats) (key, expected, observed string) {
+	f := netutil.NewIPv4Filter()
+	for i := 0; i < nStable; i++ {
+		f.Add(cidr(20<<24|uint32(i)<<16, 16))
+	}
+	w := cs.Writers
+	per := (256 - nStable) / w
+	models := make([]wmodel, w)
+	n := nStable
+	for j := 0; j < w; j++ {
+		models[j] = wmodel{}
+		cnt := per
+		if j == w-1 {
+			cnt = 256 - n
+		}
+		for i := 0; i < cnt; i++ {
+			ip := uint32(40+j)<<24 | uint32(i+1)<<8
+			f.Add(cidr(ip|0x7, 24))
+			models[j][pfx{ip, 24}] = struct{}{}
+			n++
+		}
+	}
+	var wg, rg sync.WaitGroup
+	var stop atomic.Bool
+	errs := make([]string, w+cs.Readers)
+	start := make(chan struct{})
+	r0 := rand.New(rand.NewSource(cs.Seed))
+	nrem := 8 + r0.Intn(40)
+	swOnes, swIP := 24, uint32(40)<<24|uint32(250)<<8
+	if cs.Unique {
+		swOnes, swIP = 12, uint32(40)<<24|uint32(0xA0)<<16
+	}
+	wg.Add(1)
+	go func() { // the switching writer
+		defer wg.Done()
+		defer func() {
+			if p := recover(); p != nil {
+				errs[0] = fmt.Sprint("panic: ", p)
+			}
+		}()
+		<-start
+		for k := 0; k < int(cs.Seed%7); k++ {
+			runtime.Gosched()
+		}
+		if err := f.Add(cidr(swIP|0x1, swOnes)); err != nil {
+			errs[0] = err.Error()
+			return
+		}
+		models[0][pfx{swIP & mask(swOnes), swOnes}] = struct{}{}
+		probe := swIP&mask(swOnes) | 0x00000f01&^mask(swOnes)
+		if !f.Contains(u2ip(probe)) {
+			errs[0] = fmt.Sprintf("own-update-lost: Contains(%s)=false right after Add(%s/%d) returned (the Add that makes the filter leave list mode)", u2ip(probe), u2ip(swIP), swOnes)
+		}
+	}()
+	for j := 1; j < w; j++ {
+		wg.Add(1)
+		go func(j int) {
+			defer wg.Done()
+			defer func() {
+				if p := recover(); p != nil {
+					errs[j] = fmt.Sprint("panic: ", p)
+				}
+			}()
+			<-start
+			for i := 0; i < nrem && i < per; i++ {
+				ip := uint32(40+j)<<24 | uint32(i+1)<<8
+				if err := f.Remove(cidr(ip|0x9, 24)); err != nil {
+					errs[j] = err.Error()
+					return
+				}
+				delete(models[j], pfx{ip, 24})
+			}
+		}(j)
+	}
+	for rd := 0; rd < cs.Readers; rd++ {
+		rg.Add(1)
+		go func(rd int) {
+			defer rg.Done()
+			defer func() {
+				if p := recover(); p != nil {
+					errs[w+rd] = fmt.Sprint("panic: ", p)
+				}
+			}()
+			r := rand.New(rand.NewSource(cs.Seed*977 + int64(rd)))
+			<-start
+			for !stop.Load() {
+				a := stableAddr(r)
+				if !f.Contains(u2ip(a)) {
+					errs[w+rd] = fmt.Sprintf("stable-missed: Contains(%s)=false during the list-to-map switch", u2ip(a))
+					return
+				}
+				if f.Contains(u2ip(neverAddr(r))) {
+					errs[w+rd] = "never-seen: a never-added address was reported during the list-to-map switch"
+					return
+				}
+			}
+		}(rd)
+	}
+	close(start)
+	wg.Wait()
+	stop.Store(true)
+	rg.Wait()
+	st.trials++
+	st.switchRounds++
+	st.crossed++
+	for _, e := range errs {
+		if e != "" {
+			k := e
+			if i := strings.IndexByte(e, ':'); i > 0 {
+				k = e[:i]
+			}
+			return "switch:" + k, "consistent behaviour across the list-to-map switch", e
+		}
+	}
+	for j := 0; j < w; j++ {
+		cnt := per
+		if j == w-1 {
+			cnt = 256 - nStable - per*(w-1)
+		}
+		for i := 0; i < cnt; i++ {
+			a := uint32(40+j)<<24 | uint32(i+1)<<8 | 0x55
+			if got, want := f.Contains(u2ip(a)), models[j].contains(a); got != want {
+				what := "final-removed-range-back"
+				if want {
+					what = "final-missing"
+				}
+				return "switch:" + what, fmt.Sprintf("after the run Contains(%s)=%v by writer %d's own operation order (it %s this /24 while another writer's Add switched the filter to maps)", u2ip(a), want, j, map[bool]string{true: "kept", false: "removed"}[want]), fmt.Sprint(got)
+			}
+		}
+	}
+	if !f.Contains(u2ip(swIP&mask(swOnes) | 1)) {
+		return "switch:final-missing", "the range whose Add switched the filter is present afterwards", "false"
+	}
+	return "", "", ""
+}
+
 func runCase(cs Case, st *stats) (key, expected, observed string) {
+	if cs.Switch {
+		return runSwitch(cs, st)
+	}
 	f := netutil.NewIPv4Filter()
 	for i := 0; i < nStable; i++ {
 		if err := f.Add(cidr(20<<24|uint32(i)<<16|0x1234, 16)); err != nil {
@@ -343,12 +490,13 @@ type mon struct{}
 func (mon) Name() string { return "ipfilterconc" }
 
 func (mon) Level(string) (string, string) {
-	return "exploration", "trials: fresh filter with 32 stable /16 ranges; 2 or 4 writers (each owning a disjoint /8, 150..300 seeded Add/Remove ops with nested and repeated prefixes, probing its own range after every op), 2 or 8 readers probing stable addresses (must be true) and never-added addresses (must be false unless the logical interval of the call meets a 0.0.0.0/0 on-interval of the toggler), total adds crossing the 256-entry list→map switch while readers run; afterwards full agreement with the per-writer sequential models. Plain at GOMAXPROCS 2/4/16 and under -race (race runs without the logical clock). distinct_nontrivial = distinct trials (configuration, seed) in which lookups overlapped writes"
+	return "exploration", "trials: fresh filter with 32 stable /16 ranges; 2 or 4 writers (each owning a disjoint /8, 150..300 seeded Add/Remove ops with nested and repeated prefixes, probing its own range after every op), 2 or 8 readers probing stable addresses (must be true) and never-added addresses (must be false unless the logical interval of the call meets a 0.0.0.0/0 on-interval of the toggler), total adds crossing the 256-entry list→map switch while readers run; afterwards full agreement with the per-writer sequential models. Plus 'switch rounds': the list is filled to exactly 256 entries, then one writer's Add (with a common or a unique prefix length) switches the filter to maps while the other writers remove ranges they added and readers probe; final state compared with the per-writer models. Plain at GOMAXPROCS 2/4/16 and under -race (race runs without the logical clock). distinct_nontrivial = distinct trials (configuration, seed) in which lookups overlapped writes"
 }
 
 type shardArgs struct {
-	Trials int `json:"trials"`
-	Part   int `json:"part"`
+	Trials int  `json:"trials"`
+	Part   int  `json:"part"`
+	Switch bool `json:"switch,omitempty"`
 }
 
 func (mon) Plan(prop, tier string, seed int64) []drv.Shard {
@@ -362,6 +510,10 @@ func (mon) Plan(prop, tier string, seed int64) []drv.Shard {
 		out = append(out, drv.Shard{Name: "plain-gomaxprocs" + gmp, Args: a, Env: []string{"GOMAXPROCS=" + gmp}})
 		a, _ = json.Marshal(shardArgs{Trials: raceTrials, Part: 10 + i})
 		out = append(out, drv.Shard{Name: "race-gomaxprocs" + gmp, Args: a, Env: []string{"GOMAXPROCS=" + gmp}, Race: true})
+		a, _ = json.Marshal(shardArgs{Trials: trials * 50, Part: 20 + i, Switch: true})
+		out = append(out, drv.Shard{Name: "switch-gomaxprocs" + gmp, Args: a, Env: []string{"GOMAXPROCS=" + gmp}})
+		a, _ = json.Marshal(shardArgs{Trials: raceTrials * 20, Part: 30 + i, Switch: true})
+		out = append(out, drv.Shard{Name: "switch-race-gomaxprocs" + gmp, Args: a, Env: []string{"GOMAXPROCS=" + gmp}, Race: true})
 	}
 	return out
 }
@@ -373,11 +525,14 @@ func (mn mon) Run(sh drv.Shard, c *drv.Ctx) {
 	r := rand.New(rand.NewSource(sh.Seed*6364136223846793005 + int64(a.Part)))
 	for i := 0; i < a.Trials; i++ {
 		cs := Case{Writers: []int{2, 4}[r.Intn(2)], Readers: []int{2, 8}[r.Intn(2)], Ops: 150 + r.Intn(151), Toggler: r.Intn(2) == 0, NoClock: sh.Race, Seed: r.Int63()}
+		if a.Switch {
+			cs = Case{Writers: 2 + r.Intn(3), Readers: 1 + r.Intn(2), Switch: true, Unique: r.Intn(2) == 0, Seed: r.Int63()}
+		}
 		c.Progress(fmt.Sprintf("%+v", cs), true)
 		before := st.probesOverlapWrite
 		k, e, o := runCase(cs, st)
 		c.Eval(1)
-		if st.probesOverlapWrite > before {
+		if st.probesOverlapWrite > before || cs.Switch {
 			c.DistinctStr(fmt.Sprintf("%+v", cs))
 		}
 		if c.NumSamples() < 2 {
@@ -390,6 +545,7 @@ func (mn mon) Run(sh drv.Shard, c *drv.Ctx) {
 			}
 		}
 	}
+	c.Add("switch_rounds", st.switchRounds)
 	c.Add("trials", st.trials)
 	c.Add("trials_crossing_the_list_to_map_switch", st.crossed)
 	c.Add("lookups", st.probes)
